@@ -38,6 +38,7 @@ vars == <<ks, st, pan, out, hist>>
 NULL == "null"
 NoJump == [h |-> 0, r |-> 0]
 NoOut == [none |-> TRUE]
+NoVRV == [h |-> 0, r |-> 0, ver |-> 0]
 NoNHR == <<0, 0, 0, 0>>
 EmptyFn == [x \in {} |-> {}]
 Labels == DOMAIN HDR
@@ -45,8 +46,9 @@ Labels == DOMAIN HDR
 -----------------------------------------------------------------------------
 (* ---- validator sets, thresholds (tmconsensus/math.go) ------------------ *)
 
-Keys(v)   == ValsetDef[v].keys
-NPos(v)   == Len(ValsetDef[v].keys)
+KnownVS(v) == v \in DOMAIN ValsetDef           \* "none" (zero view) and unknown hashes have no keys
+Keys(v)   == IF KnownVS(v) THEN ValsetDef[v].keys ELSE <<>>
+NPos(v)   == IF KnownVS(v) THEN Len(ValsetDef[v].keys) ELSE 0
 Pow(v, i) == ValsetDef[v].pow[i]
 
 RECURSIVE SumPow(_, _)
@@ -70,12 +72,12 @@ RECURSIVE SumBlocks(_, _, _)
 SumBlocks(v, proofs, D) == IF D = {} THEN 0
      ELSE LET t == CHOOSE x \in D : TRUE IN BlockPow(v, proofs, t) + SumBlocks(v, proofs, D \ {t})
 
-\* DEVIATION (C06): Total*Power adds a validator once per block it signed
-TotalAsCoded(v, proofs) == SumBlocks(v, proofs, DOMAIN proofs)
-
-\* what C06 asks for: every validator at most once
+\* every validator counts once toward the total, however many targets it signed
 SignersOf(proofs) == UNION {proofs[t] : t \in DOMAIN proofs}
 TotalRecount(v, proofs) == SumPow(v, SignersOf(proofs))
+TotalAsCoded(v, proofs) == TotalRecount(v, proofs)      \* [SetPrevotePowers / SetPrecommitPowers: distinctPower]
+\* the per-block sum the code used before the fix (kept to state C06 as an invariant)
+TotalPerBlock(v, proofs) == SumBlocks(v, proofs, DOMAIN proofs)
 
 \* MostVoted*Hash: maximal power, ties to the lexicographically smaller hash; the loop
 \* starts from maxHash = "", maxPow = 0, so a block with power 0 never displaces "".
@@ -156,11 +158,11 @@ SMOutput(k) ==
   LET m == k.smm IN
   IF m.outH = m.reH /\ m.outR = m.reR /\ m.reH > 0
      /\ (m.outVer > m.lastSent \/ (m.jump # NoJump /\ m.lastSent > 0))
-  THEN [vrv |-> IF m.outVer > m.lastSent THEN [h |-> m.outH, r |-> m.outR, ver |-> m.outVer] ELSE NULL,
+  THEN [vrv |-> IF m.outVer > m.lastSent THEN [h |-> m.outH, r |-> m.outR, ver |-> m.outVer] ELSE NoVRV,
         jump |-> m.jump,
         sentVersion |-> IF m.outVer > m.lastSent THEN m.outVer ELSE m.lastSent]
   ELSE IF m.jump # NoJump /\ m.jump.h = m.reH /\ m.jump.r > m.reR
-  THEN [vrv |-> NULL, jump |-> m.jump, sentVersion |-> m.lastSent]
+  THEN [vrv |-> NoVRV, jump |-> m.jump, sentVersion |-> m.lastSent]
   ELSE NoOut
 
 \* [gossipViewManager.Output]: which pointers of the NetworkViewUpdate are set
@@ -224,7 +226,11 @@ JumpVotingRound(x) ==
 CommitHeader(x, l) ==
   LET k0 == x.k
       closeHC == k0.smm.reH = k0.C.h /\ k0.smm.hc = "open"
-      k1 == MarkC([k0 EXCEPT !.C = k0.V, !.sessPending = TRUE])
+      \* after a restart the voting and next-round views share one PrevCommitProof.Proofs map
+      \* (NewKernel assigns the same value to both); NextRound.Reset() at the first commit clears it,
+      \* which empties the new committing view's previous-commit proof (as-is behaviour)
+      cview == IF k0.aliasPCP THEN [k0.V EXCEPT !.pcp.proofs = EmptyFn] ELSE k0.V
+      k1 == MarkC([k0 EXCEPT !.C = cview, !.sessPending = TRUE, !.aliasPCP = FALSE])
       newH == k0.V.h + 1
       nvs == HDR[l].nvs
       pcp == [r |-> k1.C.r, pkh |-> k1.C.vs, proofs |-> k1.C.pc]
@@ -337,16 +343,14 @@ HandleFutureVote(x, kind, msg) ==
           rec == RoundOf(x.st, msg.h, msg.r)
           cur == IF kind = "prevote" THEN rec.pv ELSE rec.pc
           allEntries == UNION {msg.proofs[t] : t \in DOMAIN msg.proofs}
-          short == \E e \in allEntries : e.pos = -1
-          \* 3-byte key ids are read as their first two bytes (position 1) by MergeSparse
-          P(e) == IF e.pos = -3 THEN 1 ELSE e.pos
-          bad == \E e \in allEntries : e.cls # "ok" \/ e.pos = 0 \/ P(e) > n
+          \* MergeSparse treats a key id that is not two bytes, or out of range, as an invalid signature
+          P(e) == e.pos
+          bad == \E e \in allEntries : e.cls # "ok" \/ e.pos < 1 \/ e.pos > n
           merged == [t \in DOMAIN cur \cup DOMAIN msg.proofs |->
                        (IF t \in DOMAIN cur THEN cur[t] ELSE {})
                        \cup (IF t \in DOMAIN msg.proofs THEN {P(e) : e \in msg.proofs[t]} ELSE {})]
           increased == \E t \in DOMAIN merged : t \notin DOMAIN cur \/ merged[t] # cur[t]
-      IN IF short THEN Panic(x, "index out of range in MergeSparse (key id shorter than 2 bytes)")
-         ELSE IF bad THEN [x EXCEPT !.res = "BadSignature"]
+      IN IF bad THEN [x EXCEPT !.res = "BadSignature"]
          ELSE IF ~increased THEN [x EXCEPT !.res = "NoNewSignatures"]
          ELSE LET rec2 == IF kind = "prevote" THEN [rec EXCEPT !.pv = merged, !.pvKH = msg.pkh]
                                               ELSE [rec EXCEPT !.pc = merged, !.pcKH = msg.pkh]
@@ -407,14 +411,14 @@ PCPCheck(l, pv) ==
       pcp == H.pcp
       n == NPos(pv)
       allE == UNION {pcp[t] : t \in DOMAIN pcp}
-      P(e) == IF e.pos = -3 THEN 1 ELSE e.pos
+      P(e) == e.pos
       signers(t) == {P(e) : e \in pcp[t]}
       main == IF H.prev \in DOMAIN pcp THEN signers(H.prev) ELSE {}
       dbl == \E t \in DOMAIN pcp, u \in DOMAIN pcp : t # u /\ signers(t) \cap signers(u) # {}
-  IN IF \E e \in allE : e.pos = -1 THEN "PANIC"
+  IN IF FALSE THEN "PANIC"
      \* ValidateFinalizedProof returns (nil, false) for an invalid signature and the caller tests
      \* allSigsUnique first, so an invalid signature is reported as a double signature
-     ELSE IF \E e \in allE : e.cls # "ok" \/ e.pos = 0 \/ P(e) > n THEN "BadPrevCommitProofDoubleSigned"
+     ELSE IF \E e \in allE : e.cls # "ok" \/ e.pos < 1 \/ e.pos > n THEN "BadPrevCommitProofDoubleSigned"
      ELSE IF dbl THEN "BadPrevCommitProofDoubleSigned"
      ELSE IF SumPow(pv, main) < Maj(TotalPow(pv)) THEN "BadPrevCommitVoteCount"
      ELSE "ok"
@@ -438,8 +442,8 @@ AddPH(x, m) ==
               \* backfill the header's PrevCommitProof into the committing view
               LET pcp == HDR[m.hdr].pcp
                   c == x1.k.C
-                  short == \E t \in DOMAIN pcp : \E e \in pcp[t] : e.pos = -1
-                  P(e) == IF e.pos = -3 THEN 1 ELSE e.pos
+                  short == FALSE
+                  P(e) == e.pos
                   \* the header's signatures are for (h-1, pcpR): they verify in the committing view only if
                   \* it is that round and that key set; unseen targets get a fresh proof, kept if it gained a signature
                   applies == HDR[m.hdr].pcpPkh = c.vs /\ HDR[m.hdr].pcpR = c.r
@@ -511,18 +515,17 @@ HandleReplay(x, m) ==
           hv == v.vs                                              \* keys and powers of the voting view's set
           n == NPos(hv)
           allE == UNION {m.proofs[t] : t \in DOMAIN m.proofs}
-          P(e) == IF e.pos = -3 THEN 1 ELSE e.pos
+          P(e) == e.pos
           \* an existing proof of the voting view is reused when there is one (its key set is the view's)
           tmp == [t \in DOMAIN m.proofs |->
                     (IF t \in DOMAIN v.pc THEN v.pc[t] ELSE {})
                     \cup {P(e) : e \in {f \in m.proofs[t] : f.cls = "ok" /\ P(f) >= 1 /\ P(f) <= n}}]
-          bad == \E e \in allE : e.cls # "ok" \/ e.pos = 0 \/ P(e) > n
+          bad == \E e \in allE : e.cls # "ok" \/ e.pos < 1 \/ e.pos > n
           \* signatures made for round m.r do not verify against an existing proof of another round
           misround == v.r # m.r /\ \E t \in DOMAIN m.proofs : t \in DOMAIN v.pc /\ m.proofs[t] # {}
       IN IF H.vs # v.vs THEN [x1 EXCEPT !.res = "Validation"]    \* header's set must be the expected one
          ELSE IF H.h > InitH /\ H.prev # x1.k.ch THEN [x1 EXCEPT !.res = "Validation"]   \* must extend the committing header
          ELSE IF ~m.hashOK THEN [x1 EXCEPT !.res = "Validation"]
-         ELSE IF \E e \in allE : e.pos = -1 THEN Panic(x1, "index out of range in MergeSparse (key id shorter than 2 bytes)")
          ELSE IF bad \/ misround THEN [x1 EXCEPT !.res = "Validation"]
          ELSE
           LET addPH == ~HasPH(v, m.hdr)
@@ -636,8 +639,11 @@ Boot(s0) ==
           LET C == IF haveC THEN [FreshView(chh, cr, cvs, cpcp) EXCEPT !.phs = cl.phs, !.pv = cl.pv, !.pc = cl.pc, !.ver = 1] ELSE [ZeroView EXCEPT !.h = chh, !.r = cr]
               V == [FreshView(vh, vr, vvs, vpcp) EXCEPT !.phs = vl.phs, !.pv = vl.pv, !.pc = vl.pc, !.ver = 1]
               N == [FreshView(vh, vr + 1, vvs, vpcp) EXCEPT !.phs = nl.phs, !.pv = nl.pv, !.pc = nl.pc, !.ver = 1]
+              \* loadInitialCommittingView marks the committing view updated: the (not yet entered) state
+              \* machine is behind it, so a jump-ahead to the committing round is recorded
               k == [C |-> C, V |-> V, N |-> N, ch |-> IF haveC THEN chdr ELSE "none", inflight |-> {},
-                    smm |-> ZeroSMM, gvm |-> ZeroGVM, sessPending |-> TRUE]
+                    smm |-> IF haveC THEN [ZeroSMM EXCEPT !.jump = [h |-> chh, r |-> cr]] ELSE ZeroSMM,
+                    gvm |-> ZeroGVM, sessPending |-> TRUE, aliasPCP |-> TRUE]
               xs == [xw EXCEPT !.k = k, !.st.vals = @ \cup {vvs} \cup (IF haveC THEN {cvs} ELSE {})]
           IN UpdateObservers(xs)
 
